@@ -190,6 +190,15 @@ def oracle(case, out):
             fs.append(('displacements/reconstruction', 'first frame + running sum of displacements does not reproduce the frames modulo 1'))
         if not np.array_equal(np.cumsum(disp, axis=2), cum):
             fs.append(('displacements/cumulative', 'cumulative_displacements is not the running sum of displacements'))
+        # distance from the starting position = Cartesian length of the cumulative displacement (exact Gram matrix of the cell, any orientation)
+        G = np.array(synth.gram(case['m']), dtype=float)
+        want_d = np.sqrt(np.einsum('atk,kl,atl->at', cum.transpose(0, 2, 1), G, cum.transpose(0, 2, 1))) / DEN
+        got_d = np.array(o['dist'])
+        if got_d.shape != want_d.shape or not np.allclose(got_d, want_d, rtol=1e-9, atol=1e-9):
+            bad = np.argwhere(~np.isclose(got_d, want_d, rtol=1e-9, atol=1e-9))[0] if got_d.shape == want_d.shape else (0, 0)
+            fs.append(('distance/not-length-of-cumulative-displacement',
+                       f'atom {bad[0]} frame {bad[1]}: distance from base {got_d[tuple(bad)] if got_d.shape == want_d.shape else got_d.shape} but the cumulative displacement has length '
+                       f'{want_d[tuple(bad)]} (lattice {case["m"]}, rotated={case["rot"]})'))
         if not o['pos2_same']:
             fs.append(('positions/second-read-differs', 'positions changed after reading displacements / distances'))
         if not o.get('after_derived_same', True):
